@@ -11,7 +11,9 @@ RECURSIVE Load(_, _)
 Load(st, pre) == IF pre = <<>> THEN st
                  ELSE Load(DStep(st, Head(pre)), Tail(pre))
 \* cfg.pre is a sequence of Memoize / WriteMetadata events describing the pre-populated store
-RInit(cfg) == [kind |-> cfg.kind, s |-> Load(DInit(cfg), cfg.pre)]
+\* cfg.damaged: a pointer file of the store was cut short before it was opened read-only (a writer died): what the calls answer
+\* is then not compared with the dictionary, everything else applies
+RInit(cfg) == [kind |-> cfg.kind, s |-> Load(DInit(cfg), cfg.pre), damaged |-> cfg.damaged]
 
 Writes   == {"Memoize", "ForgetCall", "ForgetFunction", "ForgetEverything", "WriteMetadata"}
 Rejected == {"ForgetCall", "ForgetFunction", "ForgetEverything", "WriteMetadata"}
@@ -32,10 +34,10 @@ RClauses(st, e) ==
       <<"store_tree_unchanged", e.same>>,
       <<"memoize_silently_skipped", e.op = "Memoize" => e.exc = "">>,
       <<"forget_and_metadata_write_rejected", e.op \in Rejected => e.exc = "ValueError">>,
-      <<"reads_answer_like_the_original_dictionary", e.op \notin Writes => DOk(st.s, e)>> >>
+      <<"reads_answer_like_the_original_dictionary", (e.op \notin Writes /\ ~st.damaged) => DOk(st.s, e)>> >>
 
 ROk(st, e)  == \A i \in 1..Len(RClauses(st, e)) : RClauses(st, e)[i][2]
 RWhy(st, e) == {RClauses(st, e)[i][1] : i \in {j \in 1..Len(RClauses(st, e)) : ~RClauses(st, e)[j][2]}}
-                 \cup (IF st.kind # "null" /\ e.op \notin Writes THEN DWhy(st.s, e) ELSE {})
+                 \cup (IF st.kind # "null" /\ e.op \notin Writes /\ ~st.damaged THEN DWhy(st.s, e) ELSE {})
 RStep(st, e) == st
 =============================================================================
